@@ -96,31 +96,31 @@ Definition erl_expected (fc b2 : N) : res (list val) :=
   | None => GOk [VN 0; VN (code_of "ErrProtocolError")]
   end.
 
-Lemma erl_all fuel :
+Lemma erl_all base fuel :
   forallb (fun fc => forallb (fun b2 =>
-     ok2_eqb (call src_pure fuel "expectedResponseLenth" [VN fc; VN b2]) (erl_expected fc b2))
+     ok2_eqb (call_with src_pure base fuel "expectedResponseLenth" [VN fc; VN b2]) (erl_expected fc b2))
      bytes_all) bytes_all = true.
 Proof. vm_compute. reflexivity. Qed.
 
-Lemma src_expectedResponseLenth_ok fuel fc b2 : fc < 256 -> b2 < 256 ->
-  call src_pure fuel "expectedResponseLenth" [VN fc; VN b2] = erl_expected fc b2.
+Lemma src_expectedResponseLenth_ok base fuel fc b2 : fc < 256 -> b2 < 256 ->
+  call_with src_pure base fuel "expectedResponseLenth" [VN fc; VN b2] = erl_expected fc b2.
 Proof.
   intros Hfc Hb2. apply ok2_eqb_eq.
-  pose proof (forall_bytes _ (erl_all fuel) fc Hfc) as H. cbv beta in H.
+  pose proof (forall_bytes _ (erl_all base fuel) fc Hfc) as H. cbv beta in H.
   exact (forall_bytes _ H b2 Hb2).
 Qed.
 
 (* ---------------------------------------------------------------- mapExceptionCodeToError *)
 
-Lemma exc_map_all fuel :
+Lemma exc_map_all base fuel :
   forallb (fun c =>
-     ok1_eqb (call src_pure fuel "mapExceptionCodeToError" [VN c]) (GOk [VN (err_value (exc_err c))]))
+     ok1_eqb (call_with src_pure base fuel "mapExceptionCodeToError" [VN c]) (GOk [VN (err_value (exc_err c))]))
      bytes_all = true.
 Proof. vm_compute. reflexivity. Qed.
 
-Lemma src_mapExceptionCodeToError_ok fuel c : c < 256 ->
-  call src_pure fuel "mapExceptionCodeToError" [VN c] = GOk [VN (err_value (exc_err c))].
-Proof. intros Hc. apply ok1_eqb_eq. exact (forall_bytes _ (exc_map_all fuel) c Hc). Qed.
+Lemma src_mapExceptionCodeToError_ok base fuel c : c < 256 ->
+  call_with src_pure base fuel "mapExceptionCodeToError" [VN c] = GOk [VN (err_value (exc_err c))].
+Proof. intros Hc. apply ok1_eqb_eq. exact (forall_bytes _ (exc_map_all base fuel) c Hc). Qed.
 
 (* a known exception code yields a named error, another one an unnamed non-nil error *)
 Lemma exc_err_value_known c : known_exception c = true ->
@@ -160,17 +160,17 @@ Definition err_to_exc (v : N) : N :=
   else if v =? code_of "ErrGWTargetFailedToRespond" then 11
   else 4.
 
-Lemma err_map_all fuel :
+Lemma err_map_all base fuel :
   forallb (fun v =>
-     ok1_eqb (call src_pure fuel "mapErrorToExceptionCode" [VN v]) (GOk [VN (err_to_exc v)]))
+     ok1_eqb (call_with src_pure base fuel "mapErrorToExceptionCode" [VN v]) (GOk [VN (err_to_exc v)]))
      all_error_values = true.
 Proof. vm_compute. reflexivity. Qed.
 
-Lemma src_mapErrorToExceptionCode_ok fuel v : In v all_error_values ->
-  call src_pure fuel "mapErrorToExceptionCode" [VN v] = GOk [VN (err_to_exc v)].
+Lemma src_mapErrorToExceptionCode_ok base fuel v : In v all_error_values ->
+  call_with src_pure base fuel "mapErrorToExceptionCode" [VN v] = GOk [VN (err_to_exc v)].
 Proof.
   intros Hv. apply ok1_eqb_eq.
-  pose proof (err_map_all fuel) as H. rewrite forallb_forall in H. exact (H v Hv).
+  pose proof (err_map_all base fuel) as H. rewrite forallb_forall in H. exact (H v Hv).
 Qed.
 
 (* on the handler error classes of the server model this is herr_code *)
@@ -218,8 +218,8 @@ Lemma run_serialCharTime_zero fe fuel :
   run_fn ge fe fuel src_fn_serialCharTime [VN 0] = GoLite.Panic.
 Proof. gl_eval. reflexivity. Qed.
 
-Lemma src_serialCharTime_ok fuel rate : 0 < rate -> rate < 2 ^ 63 ->
-  call src_pure fuel "serialCharTime" [VN rate] = GOk [VN (Z.to_N (char_time (Z.of_N rate)))].
+Lemma src_serialCharTime_ok base fuel rate : 0 < rate -> rate < 2 ^ 63 ->
+  call_with src_pure base fuel "serialCharTime" [VN rate] = GOk [VN (Z.to_N (char_time (Z.of_N rate)))].
 Proof.
   intros H0 H1. link_step "serialCharTime" src_fn_serialCharTime.
   rewrite run_serialCharTime by assumption.
@@ -244,8 +244,8 @@ Proof.
   - replace ((q * w) mod 65536) with (q * w) by lia. reflexivity.
 Qed.
 
-Lemma src_registerCount_ok fuel q w : q < 65536 -> w < 65536 ->
-  call src_pure fuel "registerCount" [VN q; VN w] = GOk [VN (register_count q w)].
+Lemma src_registerCount_ok base fuel q w : q < 65536 -> w < 65536 ->
+  call_with src_pure base fuel "registerCount" [VN q; VN w] = GOk [VN (register_count q w)].
 Proof.
   intros Hq Hw. link_step "registerCount" src_fn_registerCount. apply run_registerCount; assumption.
 Qed.
@@ -275,9 +275,9 @@ Proof.
   rewrite map_app. cbn [map]. reflexivity.
 Qed.
 
-Lemma src_assembleRTUFrame_ok fuel unit fc payload :
+Lemma src_assembleRTUFrame_ok base fuel unit fc payload :
   bytesb (unit :: fc :: payload) = true ->
-  call src_pure fuel "rtuTransport.assembleRTUFrame" [VN unit; VN fc; vbytes payload] =
+  call_with src_pure base fuel "rtuTransport.assembleRTUFrame" [VN unit; VN fc; vbytes payload] =
   GOk [vbytes (assemble_rtu (mkpdu unit fc payload))].
 Proof.
   intros Hb. link_step "rtuTransport.assembleRTUFrame" src_fn_rtuTransport_assembleRTUFrame.
@@ -315,9 +315,9 @@ Proof.
   rewrite !map_app. cbn [map]. rewrite <- !app_assoc. reflexivity.
 Qed.
 
-Lemma src_assembleMBAPFrame_ok fuel txn unit fc payload :
+Lemma src_assembleMBAPFrame_ok base fuel txn unit fc payload :
   N.of_nat (List.length payload) < 2 ^ 62 ->
-  call src_pure fuel "tcpTransport.assembleMBAPFrame" [VN txn; VN unit; VN fc; vbytes payload] =
+  call_with src_pure base fuel "tcpTransport.assembleMBAPFrame" [VN txn; VN unit; VN fc; vbytes payload] =
   GOk [vbytes (assemble_mbap txn (mkpdu unit fc payload))].
 Proof.
   intros Hlen. link_step "tcpTransport.assembleMBAPFrame" src_fn_tcpTransport_assembleMBAPFrame.
